@@ -967,6 +967,8 @@ class PSFn(ModFn):
             self.name, self.node.lineno, self.node.end_lineno, ", ".join(self.vars), self.coq, ps, coq_type(rt), inits, self.state_type(), pat(self.state()), term))
 
     def prepare(self):
+        if self.name == "__init__" and [ast.unparse(d) for d in self.node.args.defaults] == ["None"]:
+            self.node.args.defaults = []        # `generators=None`: None behaves as the empty list (first statement: `if not generators: return`)
         ModFn.prepare(self)
         if self.mutating:
             self.pure = False
@@ -1020,6 +1022,7 @@ class CollFn(PSFn):
             txt = ast.unparse(a.annotation) if a.annotation is not None else None
             if txt == "PauliString": self.params[a.arg] = PS
             elif txt == "int": self.params[a.arg] = Z
+            elif txt == "Union[list[PauliString] | Self | None]" and node.name == "__init__": self.params[a.arg] = T_list(PS)   # contract: called with a list (None behaves as [])
             else: bad(a, "parameter annotation %r" % txt)
         self.self_t = None
         def stores_self(t):
@@ -1031,7 +1034,7 @@ class CollFn(PSFn):
             if isinstance(c, ast.Call) and isinstance(c.func, ast.Attribute):
                 if isinstance(c.func.value, ast.Name) and c.func.value.id == "self" and c.func.attr in tr.fns and tr.fns[c.func.attr].mutating:
                     self.mutating = True
-                if isinstance(c.func.value, ast.Attribute) and ast.unparse(c.func.value) == "self.generators" and c.func.attr in ("append", "insert", "remove"):
+                if isinstance(c.func.value, ast.Attribute) and ast.unparse(c.func.value) == "self.generators" and c.func.attr in ("append", "insert", "remove", "sort"):
                     self.mutating = True
         if self.mutating:
             self.vars["self"] = COLL
@@ -1054,6 +1057,11 @@ class CollFn(PSFn):
             f = e.func
             if ast.unparse(e) == "len(max(self.generators, key=len))":
                 return "(Z.of_nat (maxlen (gens v_self)))", Z, []
+            if isinstance(f, ast.Name) and f.id == "len" and len(e.args) == 1 and isinstance(e.args[0], ast.Call) and ast.unparse(e.args[0].func) == "max" \
+               and len(e.args[0].args) == 1 and [(k.arg, ast.unparse(k.value)) for k in e.args[0].keywords] == [("key", "len")]:
+                c, t, g = self.expr(e.args[0].args[0], env)
+                if t != T_list(PS): bad(e, "max over a non-list")
+                return "(Z.of_nat (maxlen %s))" % c, Z, g + [("(negb (match %s with [] => true | _ => false end))" % c, "Raised (EUser \"ValueError\"%string)")]
             if e.keywords: bad(e, "keyword arguments")
             if isinstance(f, ast.Name) and f.id == "len" and len(e.args) == 1:
                 if ast.unparse(e.args[0]) == "self":
@@ -1085,6 +1093,10 @@ class CollFn(PSFn):
             return "(smul %s %s)" % (a, b), PS, ga + gb + [("(Nat.eqb (length %s) (length %s))" % (a, b), "Raised (EUser \"ValueError\"%string)")]
         if isinstance(e, ast.UnaryOp) and isinstance(e.op, ast.USub) and isinstance(e.operand, ast.Constant) and isinstance(e.operand.value, int):
             return "(-%d)" % e.operand.value, Z, []
+        if isinstance(e, ast.UnaryOp) and isinstance(e.op, ast.Not):
+            c, t, g = self.expr(e.operand, env)
+            if isinstance(t, tuple) and t[0] == "list": return "(match %s with [] => true | _ => false end)" % c, B, g
+            return None
         if isinstance(e, ast.Compare) and len(e.ops) == 1:
             op = e.ops[0]
             if isinstance(op, (ast.Is, ast.IsNot)) and isinstance(e.comparators[0], ast.Constant) and e.comparators[0].value is None:
@@ -1157,6 +1169,16 @@ class CollFn(PSFn):
 
     def stmt_extra(self, s, rest, env, k):
         gens_attr = lambda n: isinstance(n, ast.Attribute) and ast.unparse(n) == "self.generators"
+        # fields outside the model (the iteration cursor and the recorder), set to constants by the constructor
+        if isinstance(s, ast.AnnAssign) and ast.unparse(s.target) in ("self.nextpos", "self.record") and isinstance(s.value, ast.Constant) and self.name == "__init__":
+            return self.block(rest, env, k)
+        if isinstance(s, ast.AnnAssign) and ast.unparse(s.target) in ("self.generators", "self.classification") and s.value is not None:
+            s = ast.copy_location(ast.Assign(targets=[s.target], value=s.value), s)
+        if isinstance(s, ast.Assign) and len(s.targets) == 1 and ast.unparse(s.targets[0]) == "self.generators" and isinstance(s.value, ast.List) and not s.value.elts:
+            return self.set_field("gens", "[]") + self.block(rest, env, k) + ")"
+        # self.generators.sort(): stable, by PauliString.__lt__ (bitarray order)
+        if isinstance(s, ast.Expr) and ast.unparse(s.value) == "self.generators.sort()":
+            return self.set_field("gens", "(sort_strs (gens v_self))") + self.block(rest, env, k) + ")"
         # self.<field> = ...
         if isinstance(s, ast.Assign) and len(s.targets) == 1 and isinstance(s.targets[0], ast.Attribute) and ast.unparse(s.targets[0]) in ("self.generators", "self.classification"):
             f = "gens" if s.targets[0].attr == "generators" else "cache"
@@ -1218,6 +1240,7 @@ class CollFn(PSFn):
         if stmts:
             s0 = stmts[0]
             special = (isinstance(s0, ast.Return) and self.mutating) or isinstance(s0, ast.Delete) \
+                or (isinstance(s0, ast.AnnAssign) and isinstance(s0.target, ast.Attribute)) \
                 or (isinstance(s0, ast.Assign) and len(s0.targets) == 1 and (isinstance(s0.targets[0], (ast.Subscript, ast.Attribute)) or self.method_call(s0.value) is not None)) \
                 or (isinstance(s0, ast.Expr) and isinstance(s0.value, ast.Call) and isinstance(s0.value.func, ast.Attribute)
                     and (self.method_call(s0.value) is not None or ast.unparse(s0.value.func.value) == "self.generators"))
@@ -1243,7 +1266,7 @@ class CollFn(PSFn):
 
 
 class CollTranslator:
-    WANT = ["__len__", "find", "__delitem__", "expand", "_processing", "append", "insert", "remove", "replace", "contract", "get_class"]
+    WANT = ["__len__", "find", "__delitem__", "expand", "_processing", "append", "insert", "remove", "replace", "contract", "get_class", "sort", "__init__"]
     def __init__(self, repo):
         self.path = os.path.join(repo, "src", "paulie", "common", "pauli_string_collection.py")
         self.tree = ast.parse(open(self.path, newline=None, encoding="utf-8-sig").read())
@@ -1259,6 +1282,7 @@ class CollTranslator:
         if body_of(pdefs["expand"]) != ["return self + PauliString(n=n - len(self))"]: raise Unsupported("PauliString.expand changed")
         if body_of(pdefs["copy"]) != ["return PauliString(bits=self.bits)"]: raise Unsupported("PauliString.copy changed")
         if body_of(pdefs["__add__"]) != ["other = self._ensure_pauli_string(other)", "return self.tensor(other)"]: raise Unsupported("PauliString.__add__ changed")
+        if body_of(pdefs["__lt__"]) != ["other = self._ensure_pauli_string(other)", "return self.bits < other.bits"]: raise Unsupported("PauliString.__lt__ changed")
 
     def run(self):
         out = ["(* GENERATED by tools/py2coq.py from src/paulie/common/pauli_string_collection.py — do not edit *)",
